@@ -444,10 +444,11 @@ def parseLine(raw, eols=(CRLF, LF, CR ), kind="event line"):
     Raise error if eol not found before MAX_LINE_SIZE
     """
     while True:
-        for eol in eols:  # loop over eols unless found
-            index = raw.find(eol)  # not found index == -1
-            if index >= 0:
-                break
+        index, eol = -1, b''
+        for e in eols:  # earliest eol in raw, first listed wins a tie
+            i = raw.find(e)  # not found i == -1
+            if i >= 0 and (index < 0 or i < index):
+                index, eol = i, e
 
         if index < 0:  # not found
             if len(raw) > MAX_LINE_SIZE:
@@ -476,10 +477,11 @@ def parseLeader(raw, eols=(CRLF, LF), kind="leader header line", headers=None):
     """
     headers = headers if headers is not None else cimdict()
     while True:  # loop until entire heading indicated by empty line
-        for eol in eols:  # loop over eols unless found
-            index = raw.find(eol)  # not found index == -1
-            if index >= 0:
-                break
+        index, eol = -1, b''
+        for e in eols:  # earliest eol in raw, first listed wins a tie
+            i = raw.find(e)  # not found i == -1
+            if i >= 0 and (index < 0 or i < index):
+                index, eol = i, e
 
         if index < 0:  # not found
             if len(raw) > MAX_LINE_SIZE:
